@@ -2,11 +2,13 @@
 PROPS = {
  "C04": {
   "seed": 4,
-  "streams": [{"kind": "rust", "name": "c04"}],
+  "streams": [{"kind": "rust", "name": "c04"}, {"kind": "rust", "name": "c04wire"}],
+  "extra_modules": ["SyModel.Props.C04Wire"],
   "trusted_base": [
     "hand-written Lean model of src/delta/{rolling,checksum,generator,applier}.rs tied to the code by the in-process differential stream c04 (op lists compared byte for byte)",
     "tools/extract_consts.py (MOD_ADLER, CHUNK_SIZE, block-size clamp regenerated from source each run)",
     "xxh3-64 has no collision between compared blocks (hypothesis NoCollision); File::read returns full buffers before EOF",
+    "zstd lossless + frame magic (Codec.Sound), validated on every wire payload by the stream c04wire",
   ],
   "assumptions": ["NoCollision strong old new bs", "0 < bs", "bs ≤ chunk for the streaming generator (consts_ok_chunk)"],
  },
@@ -38,5 +40,18 @@ PROPS = {
     "serde_json prints one object per line (every stdout line is parsed with a strict JSON parser each run)",
   ],
   "assumptions": ["events are compared with the file-system diff of the destination before/after the run"],
+ },
+ "C14": {
+  "seed": 14,
+  "streams": [{"kind": "rust", "name": "c14"}],
+  "trusted_base": [
+    "hand-written Lean model of src/compress/mod.rs (decision, dispatch), src/bin/sy-remote.rs (receive-file, receive-sparse-file), src/transport/ssh.rs (sender's branch, copy_sparse_file) and src/transport/local.rs (sparse copiers), tied to the code by the stream c14: decision table vs the real functions, real sy-remote binary fed with payloads built by the same library calls as ssh.rs (ssh.rs itself cannot be driven without an SSH server: its sender side is a line-by-line replica in harness/src/c14.rs)",
+    "tools/extract_consts.py (1 MiB gates, 64 KiB sample, 0.9 ratio as 9/10, COMPRESSED_EXTENSIONS, zstd magic bytes and length guard of both sniffing sites, sparse threshold / block size, helper command names of the sender's arms regenerated from source each run)",
+    "zstd (C library via the zstd crate) and lz4_flex: decompress(compress x) = x and the zstd frame magic are hypotheses (Codec.Lossless / Codec.Sound), validated on every generated payload by the stream, never proved",
+    "kernel: SEEK_DATA/SEEK_HOLE report every non-zero byte inside some region (hypothesis Covers, checked on every generated layout); pwrite/ftruncate semantics as modelled by writeAt/setLen (validated against the files the real helper writes)",
+    "the SSH channel and SFTP are byte-transparent pipes; f64 comparison `ratio < 0.9` equals the exact rational comparison for samples ≤ 64 KiB (margin lemma consts_ok_sample_f64_margin)",
+    "copy_sparse_file_blocks (local.rs:129-170) is modelled and proved but not exercised against the implementation (needs EINVAL from lseek(SEEK_DATA))",
+  ],
+  "assumptions": ["Codec.Sound Z (zstd lossless + magic)", "Codec.Lossless L (lz4)", "Covers content regions (SEEK_DATA/SEEK_HOLE contract)"],
  },
 }
